@@ -1,22 +1,23 @@
 #!/bin/bash
-# confirm_seed.sh <seed-name> <dir-with-SEED-files> <demo-relative-path> <demo-cargo-args...>
-# In a fresh scratch worktree of /repo: (1) without the patch the demo passes, (2) with the patch the
-# repository's own suite still passes, (3) with the patch the demo fails. Prints a JSON line.
+# confirm_seed.sh <seed-name> <dir-with-patch.diff-and-demo> <demo-relative-path> <modline:0|1> <demo cargo test args...>
+# In a fresh scratch worktree of /repo: (1) with the patch the repository's own suite still passes,
+# (2) with the patch the demo fails, (3) without the patch the demo passes. Prints one JSON line.
 set -u
-NAME="$1"; SRC="$2"; DEMO_REL="$3"; shift 3
+NAME="$1"; SRC="$2"; DEMO_REL="$3"; MODLINE="$4"; shift 4
 WT=/tmp/confirm/$NAME
 export CARGO_NET_OFFLINE=true CARGO_TARGET_DIR=/tmp/confirm/$NAME-target
 rm -rf "$WT" "$CARGO_TARGET_DIR"; mkdir -p /tmp/confirm
 git -C /repo worktree add -q --detach "$WT" HEAD || exit 2
-DEMO_FILE=$(ls "$SRC" | grep -v -E '^(patch.diff|notes.json)$' | head -1)
-mkdir -p "$(dirname "$WT/$DEMO_REL")"; cp "$SRC/$DEMO_FILE" "$WT/$DEMO_REL"
 cd "$WT"
-cargo test --offline "$@" > /tmp/confirm/$NAME.demo0.log 2>&1; D0=$?
-git apply "$SRC/patch.diff" || { echo "{\"seed\":\"$NAME\",\"error\":\"patch does not apply\"}"; git -C /repo worktree remove --force "$WT"; rm -rf "$CARGO_TARGET_DIR"; exit 2; }
-mv "$WT/$DEMO_REL" /tmp/confirm/$NAME.demo.rs
+git apply "$SRC/patch.diff" || { echo "{\"seed\":\"$NAME\",\"error\":\"patch does not apply\"}"; cd /; git -C /repo worktree remove --force "$WT"; exit 2; }
 cargo test --workspace --no-fail-fast --offline > /tmp/confirm/$NAME.suite.log 2>&1; S=$?
 PASSED=$(grep -E "^test result: ok" /tmp/confirm/$NAME.suite.log | sed -E 's/.* ([0-9]+) passed.*/\1/' | paste -sd+ | bc)
-cp /tmp/confirm/$NAME.demo.rs "$WT/$DEMO_REL"
+FAILED=$(grep -E "^test result: FAILED" /tmp/confirm/$NAME.suite.log | wc -l)
+DEMO_FILE=$(ls "$SRC" | grep -E '\.rs$' | head -1)
+mkdir -p "$(dirname "$WT/$DEMO_REL")"; cp "$SRC/$DEMO_FILE" "$WT/$DEMO_REL"
+if [ "$MODLINE" = "1" ]; then printf '\n#[cfg(test)]\nmod seed_demo;\n' >> "$WT/simple-mdns/src/lib.rs"; fi
 cargo test --offline "$@" > /tmp/confirm/$NAME.demo1.log 2>&1; D1=$?
-echo "{\"seed\":\"$NAME\",\"demo_without_patch_exit\":$D0,\"suite_with_patch_exit\":$S,\"suite_tests_passed\":${PASSED:-0},\"demo_with_patch_exit\":$D1}"
+git apply -R "$SRC/patch.diff"
+cargo test --offline "$@" > /tmp/confirm/$NAME.demo0.log 2>&1; D0=$?
+echo "{\"seed\":\"$NAME\",\"suite_with_patch_exit\":$S,\"suite_tests_passed\":${PASSED:-0},\"suite_result_lines_failed\":$FAILED,\"demo_with_patch_exit\":$D1,\"demo_without_patch_exit\":$D0}"
 cd /; git -C /repo worktree remove --force "$WT"; rm -rf "$CARGO_TARGET_DIR"
